@@ -221,7 +221,7 @@ def variable_reference(k):
     xs_, ys_ = alg.log10(g(fw)), alg.log10(g(qc_))
     lw = alg.log10(sym('wav', N) / sym('unit:micron'))
     val = lambda p_: mk_fn('value', P(p_))
-    curve = _linear_fn('lininterp', val(lw), 'w', val(xs_), ys_, [C('bounds_error=False'), C('fill_value=Marker(numpy.nan)')])
+    curve = _linear_fn('lininterp', lw, 'w', xs_, ys_, [C('bounds_error=False'), C('fill_value=Marker(numpy.nan)')])
     first = lambda p_: mk_fn('at', B('w', p_), P(Poly()))
     last = lambda p_: mk_fn('at', B('w', p_), P(Poly.const(-1)))
     ap1 = mk_fn('exp10', P(curve))
@@ -229,6 +229,37 @@ def variable_reference(k):
     ap3 = ap2 + lt(last(xs_), lw) * (mk_fn('exp10', P(last(ys_))) - ap2)
     ref = _linear_fn('lininterp', ap3, A, capn, sym('flux', A, N) / mJy, [])
     return ref, alg.Facts().assume_le(first(xs_), last(xs_)), (qv, qc_, capn, cap, au)
+
+
+def expand_interp(p, unsorted=None):
+    """np.interp(q, x, y) written as the linear interpolation interp1d does inside the table, with the first / last ordinate (or left= / right=) held beyond
+    its ends: the two spellings of 'held constant beyond the end filters' then have one normal form"""
+    from ..interp import _linear_fn
+    from ..alg import C
+
+    def f(a):
+        if a[0] == 'fn' and a[1] == 'interp' and len(a) >= 5 and a[2][0] == 'P' and a[3][0] == 'B' and a[4][0] == 'B' and a[3][1] == a[4][1]:
+            q, lab, xp, fp = Poly.from_key(a[2][1]), a[3][1], Poly.from_key(a[3][2]), Poly.from_key(a[4][2])
+            if alg.array_fn('argsort', lab, xp) != Poly.atom(('fn', 'arange', ('L', lab))):
+                # np.interp does not sort: with an abscissa that is not known to increase it is not the interpolation of the table
+                if unsorted is not None:
+                    unsorted.append(xp)
+                return None
+            ends = {'left': mk_fn('at', B(lab, fp), P(Poly())), 'right': mk_fn('at', B(lab, fp), P(Poly.const(-1)))}
+            for x in a[5:]:
+                if x[0] != 'C' or '=' not in x[1]:
+                    return None
+                k_, v_ = x[1].split('=', 1)
+                try:
+                    ends[k_] = Poly.const(Fraction(v_))
+                except (ValueError, ZeroDivisionError):
+                    return None
+            lin = _linear_fn('lininterp', q, lab, xp, fp, [C('bounds_error=False'), C('fill_value=Marker(numpy.nan)')])
+            lo, hi = mk_fn('at', B(lab, xp), P(Poly())), mk_fn('at', B(lab, xp), P(Poly.const(-1)))
+            r = lin + lt(q, lo) * (ends['left'] - lin)
+            return r + lt(hi, q) * (ends['right'] - r)
+        return None
+    return alg.rebuild(p, f)
 
 
 def check_variable(ctx):
@@ -249,6 +280,14 @@ def check_variable(ctx):
     bad_axes = [f for f in I.findings if f.kind == 'label-clash']
     decided = False
     if isinstance(outv, Arr) and not bad_axes:
+        unsorted = []
+        outv = outv.with_(poly=expand_interp(outv.poly, unsorted))
+        for xp in unsorted:
+            syms, fns_ = alg.leaf_syms(xp)
+            if {x for x in syms if not x.startswith('unit:')} <= {'fw'} and fns_ <= {'ln'}:
+                ctx.violation('PERM-10', 'aperture(wavelength) interpolator', where_, 'np.interp needs an increasing abscissa but is given %s: the filter wavelengths in the order the user listed them, '
+                              'so for filters not listed by increasing wavelength the aperture curve is wrong' % alg.show(xp, 120), 'unsorted-abscissa')
+                return
         ks = sorted({c for c in alg.constants_in(outv.poly) if Fraction(99, 100) <= c < 1} | {Fraction(1), Fraction(999, 1000)}, reverse=True)
         hit = None
         for k in ks:
@@ -373,7 +412,7 @@ def variable_details(ctx, pre=None):
     xs_, ys_ = alg.log10(gathered(fw)), alg.log10(gathered(qc_))
     lw = alg.log10(sym('wav', N) / sym('unit:micron'))
     val = lambda p_: mk_fn('value', P(p_))
-    curve = _linear_fn('lininterp', val(lw), 'w', val(xs_), ys_, [C('bounds_error=False'), C('fill_value=Marker(numpy.nan)')])
+    curve = _linear_fn('lininterp', lw, 'w', xs_, ys_, [C('bounds_error=False'), C('fill_value=Marker(numpy.nan)')])
     first = lambda p_: mk_fn('at', B('w', p_), P(Poly()))
     last = lambda p_: mk_fn('at', B('w', p_), P(Poly.const(-1)))
     ap1 = mk_fn('exp10', P(curve))
@@ -394,6 +433,7 @@ def variable_details(ctx, pre=None):
 CF = 'sedfitter/convolved_fluxes/convolved_fluxes.py'
 SE = 'sedfitter/sed/sed.py'
 MUST_FIRE = [
+    ('aperture curve through np.interp without sorting the filters', [(SE, "        # Find wavelength order\n        order = np.argsort(wavelengths)\n\n        # Interpolate apertures vs wavelength\n        log10_ap_interp = interp1d(np.log10(wavelengths[order]), np.log10(apertures[order]), bounds_error=False, fill_value=np.nan)\n", ""), (SE, "        # Interpolate the apertures\n        apertures = 10. ** log10_ap_interp(np.log10(sed_wav))\n\n        # Extrapolate on either side\n        apertures[np.log10(sed_wav) < log10_ap_interp.x[0]] = 10. ** log10_ap_interp.y[0]\n        apertures[np.log10(sed_wav) > log10_ap_interp.x[-1]] = 10. ** log10_ap_interp.y[-1]\n", "        apertures = 10. ** np.interp(np.log10(sed_wav), np.log10(wavelengths), np.log10(apertures))\n")]),
     ('D21 reverted: clamped request converted back to the table unit before the bounds-checked look-up', [(CF, "new_apertures = np.clip(c.apertures.to(self.apertures.unit), self.apertures.min(), self.apertures.max())", "new_apertures = c.apertures.to(self.apertures.unit)")]),
     ('variable aperture: short-wavelength side held at the last filter aperture', [(SE, "apertures[np.log10(sed_wav) < log10_ap_interp.x[0]] = 10. ** log10_ap_interp.y[0]", "apertures[np.log10(sed_wav) < log10_ap_interp.x[0]] = 10. ** log10_ap_interp.y[-1]")]),
     ('variable aperture: long-wavelength side not held', [(SE, "        apertures[np.log10(sed_wav) > log10_ap_interp.x[-1]] = 10. ** log10_ap_interp.y[-1]\n", "")]),
@@ -425,6 +465,8 @@ MUST_FIRE = [
                                                "        if np.any(apertures < sed_apertures.min()):\n            raise Exception(\"Aperture(s) requested too small\")\n\n        result = flux_interp(apertures)\n        apertures[apertures > sed_apertures.max()] = sed_apertures.max()\n        return result")]),
 ]
 MUST_SILENT = [
+    ('aperture curve through np.interp on the sorted filters', [(SE, "        # Find wavelength order\n        order = np.argsort(wavelengths)\n\n        # Interpolate apertures vs wavelength\n        log10_ap_interp = interp1d(np.log10(wavelengths[order]), np.log10(apertures[order]), bounds_error=False, fill_value=np.nan)\n", "        order = np.argsort(wavelengths)\n"), (SE, "        # Interpolate the apertures\n        apertures = 10. ** log10_ap_interp(np.log10(sed_wav))\n\n        # Extrapolate on either side\n        apertures[np.log10(sed_wav) < log10_ap_interp.x[0]] = 10. ** log10_ap_interp.y[0]\n        apertures[np.log10(sed_wav) > log10_ap_interp.x[-1]] = 10. ** log10_ap_interp.y[-1]\n", "        apertures = 10. ** np.interp(np.log10(sed_wav), np.log10(wavelengths[order]), np.log10(apertures[order]))\n")]),
+    ('interp1d left to sort the aperture curve itself', [(SE, "interp1d(np.log10(wavelengths[order]), np.log10(apertures[order]), bounds_error=False, fill_value=np.nan)", "interp1d(np.log10(wavelengths), np.log10(apertures), bounds_error=False, fill_value=np.nan)")]),
     ('bounds re-applied after the conversion with minimum/maximum', [(CF, "new_apertures = np.clip(c.apertures.to(self.apertures.unit), self.apertures.min(), self.apertures.max())", "new_apertures = np.maximum(np.minimum(c.apertures.to(self.apertures.unit), self.apertures.max()), self.apertures.min())")]),
     ('variable aperture: log wavelength in a temporary', [(SE, "        apertures = 10. ** log10_ap_interp(np.log10(sed_wav))\n\n        # Extrapolate on either side\n        apertures[np.log10(sed_wav) < log10_ap_interp.x[0]] = 10. ** log10_ap_interp.y[0]\n        apertures[np.log10(sed_wav) > log10_ap_interp.x[-1]] = 10. ** log10_ap_interp.y[-1]",
                                                               "        log_wav = np.log10(sed_wav)\n        apertures = 10. ** log10_ap_interp(log_wav)\n\n        # Extrapolate on either side\n        apertures[log_wav > log10_ap_interp.x[-1]] = 10. ** log10_ap_interp.y[-1]\n        apertures[log_wav < log10_ap_interp.x[0]] = 10. ** log10_ap_interp.y[0]")]),
